@@ -638,8 +638,8 @@ class _Run:
         op = {"add": operator.add, "sub": operator.sub, "mul": operator.mul, "div": operator.truediv, "lt": operator.lt,
               "ge": operator.ge, "le": operator.le, "gt": operator.gt}[s["op"]]
         same = a["obj"]._REGISTRY is b["obj"]._REGISTRY
-        if s["op"] in ("lt", "ge", "le", "gt") and (a["kind"] != "q" or b["kind"] != "q"):
-            return "n/a"
+        if s["op"] in ("lt", "ge", "le", "gt") and (a["kind"] == "m" or b["kind"] == "m"):
+            return "n/a"  # ordering is defined for quantities and units
         if s["op"] in ("add", "sub") and (a["kind"] == "u" or b["kind"] == "u"):
             return "n/a"
         try:
